@@ -351,10 +351,11 @@ def write_evidence(prop, tier, seed, eng, funcs, n_obl, n_dis, by_backend, solve
         if not unverified or qn.rsplit('.', 1)[0] not in classes:
             continue
         clauses = sorted(n_.split('[')[0] for n_ in list(c.ensures) + list((c.extra.get('assumed_ensures') or {})))
-        line = ('callee represented by an UNVERIFIED contract (%s): %s - frame %s; assumed clauses: %s'
+        line = ('callee represented by an UNVERIFIED contract (%s): %s - frame %s; assumed clauses: %s%s'
                 % ('trusted' if c.trusted else 'havoc-only stand-in for a method outside the subset', qn.split('afkak.')[-1],
                    c.extra.get('modifies') if c.extra.get('modifies') is not None else 'everything mutable',
-                   ', '.join(clauses) or 'none'))
+                   ', '.join(clauses) or 'none',
+                   '; assumed to re-establish the object invariant' if c.extra.get('method') and c.extra.get('establishes_invariant', True) else ''))
         if line not in trusted:
             trusted.append(line)
     proved_all = n_obl > 0 and n_dis == n_obl and not undecided and not errors
@@ -388,7 +389,8 @@ def write_evidence(prop, tier, seed, eng, funcs, n_obl, n_dis, by_backend, solve
             rule='deductive part: one evaluation per obligation instance (named obligation x path); bounded part: generated '
                  'scenarios/inputs, distinct = distinct event scripts / argument tuples',
         ),
-        assumptions=ASSUMPTIONS + meta.get('assumptions', []) + entry_assumptions(funcs) + uncontracted_methods(eng, funcs),
+        assumptions=ASSUMPTIONS + meta.get('assumptions', []) + entry_assumptions(funcs) + uncontracted_methods(eng, funcs)
+        + external_models(funcs),
         wall_s=round(wall, 2), violations=len(violations),
     )
     os.makedirs(os.path.join(VERIF, 'evidence'), exist_ok=True)
@@ -409,6 +411,36 @@ def entry_assumptions(funcs):
                 % (f['qualname'].split('afkak.')[-1], ' and '.join('(%s)' % r for r in c.requires)))
         if line not in out:
             out.append(line)
+    return out
+
+
+def external_models(funcs):
+    """library / collaborator objects the units talk to are modelled classes (no source under contract): which methods are
+    assumed to return without calling back into the object under verification, and which are treated as re-entrant"""
+    from .contracts import CONTRACTS
+    from .heap import KLASSES
+    out = []
+    seen = set()
+    for f in funcs:
+        c = CONTRACTS.get(f['qualname'])
+        if c is None:
+            continue
+        texts = [c.extra.get('sig', '') or ''] + [str(v) for v in (c.closure_env or {}).values()]
+        for part in f['qualname'].split('.'):
+            k = KLASSES.get(part)
+            if k is not None:
+                texts += [str(t) for t, _ in k.fields.values()]
+        blob = ' '.join(texts)
+        for kname, k in KLASSES.items():
+            if not k.external or not k.methods or kname in seen:
+                continue
+            if ('Ref_' + kname) in blob or ("'ref', '%s'" % kname) in blob:
+                seen.add(kname)
+                re_ = sorted(m for m, d in k.methods.items() if d.get('reentrant'))
+                nre = sorted(m for m, d in k.methods.items() if not d.get('reentrant'))
+                out.append('modelled collaborator %s (no source under contract): %s assumed NOT to call back into the object under '
+                           'verification before returning%s; declared exceptions only'
+                           % (kname, ', '.join(nre) or '-', ('; treated as re-entrant (full excursion): ' + ', '.join(re_)) if re_ else ''))
     return out
 
 
